@@ -146,6 +146,8 @@ class StmtMixin:
             return [_out('return', st, SV(NONE, NONEV), s.lineno)]
         if isinstance(s.value, ast.List) and self.c.returns.kind == 'list':
             s.value._elem_hint = self.c.returns.args[0]
+        if isinstance(s.value, ast.Dict) and not s.value.keys and self.c.returns.kind == 'dict':
+            s.value._dict_hint = self.c.returns          # `return {}`: an empty dict of the declared return type
         return [_out('return', s2, v, s.lineno) for v, s2 in self.ev(s.value, st)]
 
     def st_Raise(self, s, st):
@@ -544,7 +546,8 @@ class StmtMixin:
                 self.assume_typed(nv, h, depth=0)
         writes = self.loop_writes(node)
         if writes:
-            self.havoc_heap(h, writes, self.modset, keys=self.loop_write_keys(node))
+            import os as _os
+            self.havoc_heap(h, writes, self.modset, keys=None if _os.environ.get('VERIF_FULL_HAVOC') else self.loop_write_keys(node))
         if h.out is not None and self.contains_yield(node):
             h.out = SeqV(h.out.elem, fresh('out_arr', z3.ArraySort(I, sort_of(h.out.elem))), fresh('out_n', I))
             h.assume(h.out.n >= 0)
